@@ -396,6 +396,10 @@ class SignatureV4(Signature):
 
     @property
     def signer(self):
+        if 'Issuer' not in self.subpackets and 'IssuerFingerprint' in self.subpackets:
+            # the issuer is named by its fingerprint only: the key id of a version 4 key is the low 64 bits of that
+            return self.subpackets['IssuerFingerprint'][-1].issuer_fingerprint.keyid
+
         return self.subpackets['Issuer'][-1].issuer
 
     def __init__(self):
